@@ -43,6 +43,14 @@ CLAIMS = {
             "Lean proof (policy arithmetic, unbounded) + differential test of adjust/should_collect"),
     "C16": ("All counter-word operations (strong, tracing, weak words) proved to saturate exactly at MAX with the word unchanged, never produce the reserved value, never spill into the flag bits (omega, for all words; limits regenerated from the sources); clone/upgrade at the limit proved to only start unwinding. Tie: EXHAUSTIVE comparison of every operation on all 2^16 words between the compiled crate and the model (complete for these finite functions), the C16 rule evaluated directly on the crate's table, and boundary programs (16381/16382/16383 clones, 32766/32767/32768 weaks, mixed clone+upgrade, then collection).",
             "Lean proof (word arithmetic, omega) + exhaustive 2^16 word-table correspondence + boundary programs"),
+    "C17": ("visit = owned for every shape (structural induction over arbitrary nesting/arity/length), a borrowed RefCell reports nothing, non-owning types report nothing, nothing outside the owned set is ever reported. The substance is the tie: every real impl is exercised (all constructors, tuple arity 1..12, arrays 0..32, Vec/slice 0..6, each variant, borrowed/unborrowed RefCell, two-level nestings) and per-leaf trace/finalize report counts are compared with the model's.",
+            "Lean proof (structural induction) + per-impl report counting on the real crate"),
+    "C18": ("For all type definitions: each non-ignored field of a non-ignored variant is visited exactly once, ignored ones never, Drop emitted iff no unsafe_no_drop, derived Finalize empty. Tie: randomly generated definitions compiled with the real macro each run, per-field report counts compared; compile-fail probe for the Drop conflict (E0119) and compile-pass probe for unsafe_no_drop.",
+            "Lean proof over a derive AST + generated-definition compile-and-count + compile-fail probe"),
+    "C19": ("Non-interference theorem over the product of per-thread worlds for EVERY interleaving (each thread's state depends only on its own steps). Partial, named: OS threads, TLS implementation and destructor order are not modelled. Tie: static scan (no state outside thread_local!, no Send/Sync impls, PhantomData<Rc> markers), generated programs on 2..16 concurrently running threads vs sequential model runs, 8 thread-exit scenarios (user TLS before/after collector TLS; unique/buffered/cyclic).",
+            "Lean proof (product non-interference) + static scan + concurrent-thread correspondence + teardown scenarios"),
+    "C20": ("Layout arithmetic for all sizes/alignments (payload offset aligned, payload inside the box, ZST). Forwarding impls are one-line delegations (true by unfolding): the substance is the tie - grid of payload layouts incl. ZST and 4096-aligned through every pointer-producing API with address/alignment/ptr_eq checks and predicted box layout, and all forwarded methods compared with the payload's on value sets incl. NaN/+-0.0.",
+            "Lean proof (layout arithmetic) + layout grid and forwarding probes on the real crate"),
 }
 
 
